@@ -12,6 +12,7 @@ import numpy as np
 from EasyFEA import Models
 from EasyFEA.Models._utils import Apply_Pmat, Get_Pmat
 
+from . import _suite
 from ..core import Ctx, quiet, relerr
 from ..gen import materials as gmat
 from ..ref import tensors as T
@@ -72,6 +73,9 @@ def cases(tier: str, seed: int) -> list[dict]:
     for i, c in enumerate(out):
         c["id"] = f"C11-{i:05d}-{c['sc']}-{c.get('kind', '')}-{c.get('dim', c.get('adim'))}-{c.get('axes', c.get('form', ''))}"
         c["index"] = i
+    for c in _suite.suite_cases(PROP, tier):
+        c["index"] = len(out)
+        out.append(c)
     return out
 
 
@@ -110,6 +114,8 @@ def _basic_law_checks(ctx, C, S, key):
 
 
 def run_case(case: dict, ctx: Ctx) -> None:
+    if case.get("fam") == "suite":
+        return _suite.run_suite(case, ctx, PROP)
     rng = np.random.default_rng([case["seed"], NUM, case["index"]])
     {"law": run_law, "aniso": run_aniso, "pmat": run_pmat, "update": run_update, "hetero": run_hetero, "walpole": run_walpole}[case["sc"]](case, ctx, rng)
 
